@@ -31,7 +31,7 @@ vlib.standard_check({
     "exe": "gv_c04",
     "harness": "c04",
     # harness args after the seed: <ncases> <nsteps> <mode>; mode 1 = derived clocks kept edge-aligned with a shared pin, 0 = any
-    "streams": {"quick": [[1200, 60, 1], [400, 60, 0]],
+    "streams": {"quick": [[4000, 60, 1], [2000, 60, 0]],
                 "thorough": [[20000, 100, 1], [6000, 100, 0], [400, 2500, 1]]},
     "search": [[4000, 80, 0], [4000, 80, 1]],
     "signature": signature,
